@@ -366,4 +366,5 @@ def run(ctx: Ctx, repo: Repo, tier: str) -> None:
     from . import c07 as _c07
     ctx.attempt(_c07.rule_chain, ctx, repo)
     ctx.attempt(_c07.rule_no_memory, ctx, repo)
+    ctx.attempt(_c07.rule_nested, ctx, repo)  # incl. "the same type whatever order the members of a (nested) union are in"
     ctx.settle()
